@@ -548,25 +548,80 @@ def dig(o):
         else: h.update(repr(x).encode())
     w(o); return h.hexdigest()
 out = {}
-with contextlib.redirect_stdout(io.StringIO()):
-    out["matmat"] = dig(utils.quat_matmat(S, A))
-    out["qsvd"] = dig(qsvd.classical_qsvd_full(A))
-    out["qr"] = dig(qsvd.qr_qua(A))
-    out["rank"] = dig(utils.rank(A))
-    out["norm2"] = dig(utils.matrix_norm(A, 2))
-    out["detD"] = dig(utils.det(S, "Dieudonne"))
-    out["detM"] = dig(utils.det(H, "Moore"))
-    out["lu"] = dig(LU.quaternion_lu(S, return_p=True))
-    out["eig"] = dig(eigen.quaternion_eigendecomposition(H))
-    out["hess"] = dig(hessenberg.hessenbergize(S))
-    out["schur"] = dig(schur.quaternion_schur(S, max_iter=30))
-    out["ns"] = dig(solver.NewtonSchulzPseudoinverse(max_iter=6).compute(A)[:2])
-    out["hon"] = dig(solver.HigherOrderNewtonSchulzPseudoinverse(max_iter=4).compute(A)[:2])
-    x, info = solver.QGMRESSolver(tol=1e-10, preconditioner="left_lu").solve(S, b); out["gmres_lu"] = dig((x, info["iterations"], info["residual"]))
-    x, info = solver.QGMRESSolver(tol=1e-10).solve(S, b); out["gmres"] = dig((x, info["iterations"], info["residual"]))
-    np.random.seed(1); out["rsp"] = dig(solver.RandomizedSketchProjectPseudoinverse(block_size=2, max_iter=5, test_sketch_size=2).compute(A)[0])
-    np.random.seed(1); out["pit"] = dig(utils.power_iteration(H, max_iterations=10, return_eigenvalue=True))
-    np.random.seed(1); out["null"] = dig(utils.quat_null_space(A))
+if style == "package":
+    from quatica import tensor, data_gen, qslst
+    from quatica.decomp import tridiagonalize as tridiag
+else:
+    import tensor, data_gen, qslst
+    from decomp import tridiagonalize as tridiag
+from scipy import sparse as _sp
+def SP(M):
+    f = quaternion.as_float_array(M) * (np.abs(quaternion.as_float_array(M)[..., :1]) > 0.3)
+    return utils.SparseQuaternionMatrix(*[_sp.csr_matrix(f[..., c]) for c in range(4)], M.shape)
+def spd(x):
+    return np.stack([x.real.toarray(), x.i.toarray(), x.j.toarray(), x.k.toarray()], axis=-1) if hasattr(x, "k") and hasattr(x, "real") and not isinstance(x, np.ndarray) else x
+def run(name, f, seed=None):
+    # an exception is an observable outcome too: both styles must raise the same way or return the same value
+    try:
+        if seed is not None:
+            np.random.seed(seed)
+        with contextlib.redirect_stdout(io.StringIO()):
+            out[name] = dig(f())
+    except Exception as e:
+        out[name] = "raises:" + type(e).__name__
+T3 = Q(2, 3, 2)
+img = rng.random((4, 5, 4)); psf = np.array([[0.25, 0.5, 0.25]])
+run("matmat", lambda: utils.quat_matmat(S, A))
+run("qsvd", lambda: qsvd.classical_qsvd_full(A))
+run("qsvd_trunc", lambda: qsvd.classical_qsvd(A, 2))
+run("qr", lambda: qsvd.qr_qua(A))
+run("rank", lambda: utils.rank(A))
+run("norm2", lambda: utils.matrix_norm(A, 2))
+run("detD", lambda: utils.det(S, "Dieudonne"))
+run("detM", lambda: utils.det(H, "Moore"))
+run("lu", lambda: LU.quaternion_lu(S, return_p=True))
+run("eig", lambda: eigen.quaternion_eigendecomposition(H))
+run("tridiag", lambda: (tridiag if callable(tridiag) else tridiag.tridiagonalize)(H))     # decomp/__init__ re-exports the function under the module's name
+run("hess", lambda: hessenberg.hessenbergize(S))
+run("schur", lambda: schur.quaternion_schur(S, max_iter=30))
+run("schur_unified_aed", lambda: schur.quaternion_schur_unified(S, variant="aed", max_iter=10))
+run("schur_pure", lambda: schur.quaternion_schur_pure(S, max_iter=10))
+run("ns", lambda: solver.NewtonSchulzPseudoinverse(max_iter=6).compute(A)[:2])
+run("hon", lambda: solver.HigherOrderNewtonSchulzPseudoinverse(max_iter=4).compute(A)[:2])
+def g(prec, M):
+    x, info = solver.QGMRESSolver(tol=1e-10, preconditioner=prec).solve(M, b)
+    return (x, info["iterations"], info["residual"])
+run("gmres_lu", lambda: g("left_lu", S))
+run("gmres", lambda: g(None, S))
+run("rsp", lambda: solver.RandomizedSketchProjectPseudoinverse(block_size=2, max_iter=5, test_sketch_size=2).compute(A)[0], seed=1)
+run("hybrid", lambda: solver.HybridRSPNewtonSchulz(r=2, T=2, max_iter=4, seed=3).compute(A)[0], seed=1)
+run("cgne", lambda: solver.CGNEQSolver(max_iter=5).compute(A)[0], seed=1)
+run("pit", lambda: utils.power_iteration(H, max_iterations=10, return_eigenvalue=True), seed=1)
+run("pit_adjoint", lambda: utils.power_iteration_nonhermitian(S, max_iterations=20)[:2], seed=1)
+run("null", lambda: utils.quat_null_space(A), seed=1)
+run("null_left", lambda: utils.quat_null_space(A, side="left"), seed=1)
+run("rand_qsvd", lambda: qsvd.rand_qsvd(A, 2, oversample=1, n_iter=1), seed=1)
+run("pass_eff_qsvd", lambda: qsvd.pass_eff_qsvd(A, 2, oversample=1, n_passes=2), seed=1)
+run("gen_unitary", lambda: data_gen.generate_random_unitary_matrix(3), seed=1)
+run("gen_test_matrix", lambda: data_gen.create_test_matrix(4, 3, rank=2), seed=1)
+run("gen_sparse", lambda: spd(data_gen.create_sparse_quat_matrix(4, 3, density=0.5)), seed=1)
+# the same routines with the library's sparse container built in the SAME import style
+run("sparse.matmat.sd", lambda: utils.quat_matmat(SP(S), A))
+run("sparse.matmat.ds", lambda: spd(utils.quat_matmat(S, SP(S))))
+run("sparse.matmat.ss", lambda: spd(utils.quat_matmat(SP(S), SP(S))))
+run("sparse.operator", lambda: SP(S) @ A)
+run("sparse.hermitian", lambda: spd(utils.quat_hermitian(SP(A))))
+run("sparse.fro", lambda: utils.quat_frobenius_norm(SP(A)))
+run("sparse.matrix_norm", lambda: utils.matrix_norm(SP(A), "fro"))
+run("sparse.ns", lambda: solver.NewtonSchulzPseudoinverse(max_iter=6).compute(SP(A))[:2])
+run("sparse.gmres", lambda: g(None, SP(S)))
+run("sparse.gmres_lu", lambda: g("left_lu", SP(S)))
+run("tensor.unfold", lambda: [tensor.tensor_unfold(T3, m_) for m_ in (0, 1, 2)])
+run("tensor.fold", lambda: tensor.tensor_fold(tensor.tensor_unfold(T3, 1), 1, T3.shape))
+run("tensor.fro", lambda: tensor.tensor_frobenius_norm(T3))
+run("qslst.blur", lambda: qslst.apply_blur_fft(img, psf))
+run("qslst.restore_fft", lambda: qslst.qslst_restore_fft(img, psf, 0.1))
+run("qslst.psnr", lambda: qslst.psnr(img, img * 0.9))
 print(json.dumps({"digests": out, "toplevel_copies": extra}))
 '''
 
